@@ -185,7 +185,9 @@ fn code_hex(c: u32, one_byte: bool, upper: bool) -> String {
 }
 
 /// conformant printer of a ToUnicode CMap (ISO 32000-1 9.10.3, Adobe TN 5014)
-fn print_cmap(entries: &[Value], off: u32, one_byte: bool, variant: usize) -> String {
+fn print_cmap(entries: &[Value], off: u32, one_byte: bool, variant: usize, tshift: u16) -> String {
+    // the last unit of every target text is shifted (see run_cmap)
+    let units = |v: &Value| -> Vec<u16> { let mut u = units(v); if let Some(l) = u.last_mut() { *l += tshift; } u };
     let upper = variant % 2 == 0;
     let sep = if variant % 3 == 0 { " " } else { "\n" };
     let mut s = String::from("/CIDInit /ProcSet findresource begin\n12 dict begin\nbegincmap\n/CIDSystemInfo << /Registry (Adobe) /Ordering (UCS) /Supplement 0 >> def\n/CMapName /Adobe-Identity-UCS def\n/CMapType 2 def\n");
@@ -238,8 +240,16 @@ pub fn run_cmap(cases_path: &str, report_path: &str, opts: &[String]) {
     let mut rep = Report::default();
     for (ci, case) in cases.iter().enumerate() {
         rep.cases += 1;
-        let ideal: Vec<Vec<u16>> = case["ideal"].as_array().unwrap().iter().map(units).collect();
-        let mech: Vec<Vec<u16>> = case["mech"].as_array().unwrap().iter().map(units).collect();
+        let ideal0: Vec<Vec<u16>> = case["ideal"].as_array().unwrap().iter().map(units).collect();
+        let mech0: Vec<Vec<u16>> = case["mech"].as_array().unwrap().iter().map(units).collect();
+        // target shift: the model's texts are small numbers; every second case moves the last unit of all texts so that the
+        // largest one ends on the byte 0xFF (a range written in string form increments the last byte up to and including 255)
+        let maxu = ideal0.iter().filter_map(|u| u.last().copied()).max().unwrap_or(0);
+        // (texts with surrogates or other large units stay as they are)
+        let tshift: u16 = if maxu < 0x2000 && (ci % 2 == 1 || opts.iter().any(|o| o == "--all-variants") && ci % 3 == 0) { 0x20FF - maxu } else { 0 };
+        let shift = |v: &Vec<Vec<u16>>| -> Vec<Vec<u16>> { v.iter().map(|u| { let mut u = u.clone(); if let Some(l) = u.last_mut() { *l += tshift; } u }).collect() };
+        let ideal = shift(&ideal0);
+        let mech = shift(&mech0);
         let n = ideal.len() as u32;
         let mode = case["mode"].as_str().unwrap();
         let assigned = ideal.iter().filter(|u| !u.is_empty()).count();
@@ -264,7 +274,7 @@ pub fn run_cmap(cases_path: &str, report_path: &str, opts: &[String]) {
                         }
                     }
                 } else {
-                    print_cmap(case["text"].as_array().unwrap(), off, one_byte, variant)
+                    print_cmap(case["text"].as_array().unwrap(), off, one_byte, variant, tshift)
                 };
                 match read_back(&text) {
                     Err(e) => rep.fail(&format!("cmap:{}:read", mode), json!({"case_index": ci, "case": case, "offset": off, "text": text, "observed": e})),
@@ -272,7 +282,7 @@ pub fn run_cmap(cases_path: &str, report_path: &str, opts: &[String]) {
                         let obs: Vec<Vec<u16>> = (0..n).map(|c| m.get((c + off) as u16).map(|s| s.encode_utf16().collect()).unwrap_or_default()).collect();
                         if obs != ideal || m.len() != assigned {
                             let asb = obs == mech;
-                            rep.fail(&format!("cmap:{}:value", mode), json!({"case_index": ci, "case": case, "offset": off, "one_byte": one_byte, "text": text,
+                            rep.fail(&format!("cmap:{}:value", mode), json!({"case_index": ci, "case": case, "offset": off, "one_byte": one_byte, "target_shift": tshift, "text": text,
                                 "expected": ideal, "observed": obs, "len": m.len(), "matches_asbuilt": asb}));
                         }
                     }
